@@ -309,6 +309,36 @@ class Stratified:
         return cur
 
 
+class Targeted:
+    """Switch the first time each operation reaches a chosen valida function
+    (drawn per run from the reach-probe list), otherwise rarely at random:
+    places pre-emptions inside short, rarely hit windows (set_datum,
+    extract_paths, the on-the-fly combination in MapOrListValue.filter ...)."""
+
+    name = "targeted"
+
+    def __init__(self, rng, target, p=0.002):
+        self.r = rng
+        self.target = target
+        self.done = set()
+        self.p = p
+
+    def decide(self, eng, step, cur, cur_ok, runnable, mid_op):
+        if not cur_ok:
+            return self.r.choice(runnable)
+        if mid_op and len(runnable) > 1:
+            f = eng.cur_frame
+            key = (cur, eng.op_index[cur])
+            if f is not None and f.f_code.co_qualname == self.target and key not in self.done:
+                # a few lines into the function, not always at its first line
+                if self.r.random() < 0.5:
+                    self.done.add(key)
+                    return self.r.choice([c for c in runnable if c != cur])
+            elif self.r.random() < self.p:
+                return self.r.choice([c for c in runnable if c != cur])
+        return cur
+
+
 class AfterWrite:
     """Switch right after a store into a pre-existing shared object; otherwise
     a low-rate random strategy."""
@@ -404,6 +434,7 @@ class Engine:
         self.killed = False
         self.last_check_step = 0
         self.digest_checks = 0
+        self.cur_frame = None
         self.current = None
         self._caller_tids = set()
         self._tid_caller = {}
@@ -678,7 +709,9 @@ class Engine:
             self._probe(frame, "abort")
             self.write_since_last_point = False
             raise SimAbort()
+        self.cur_frame = frame
         t = self._decide(c, True, True)
+        self.cur_frame = None
         self.write_since_last_point = False
         if t != c:
             self.mid_op_switches += 1
